@@ -43,6 +43,7 @@ fn typed_mut<T: Elem>(v: &mut Vector<T>, name: &str, op: &Value) -> bool {
 pub fn step<T: Elem>(v: &mut Vector<T>, op: &Value) -> Option<StepOut<T>> {
     let name = gets(op, "op").to_string();
     let form = gets(op, "form").to_string();
+    let alias = op.get("alias").and_then(|a| a.as_bool()).unwrap_or(false);
     let mut supported = true;
     let r = guarded(|| {
         let mut o = none::<T>();
@@ -66,6 +67,10 @@ pub fn step<T: Elem>(v: &mut Vector<T>, op: &Value) -> Option<StepOut<T>> {
             "get" => o.rs = Some(v[getu(op, "i")]),
             "clone" => o.rv = Some(v.clone()),
             "find" => o.ri = Some(v.find(arg_x::<T>(op)) as i64),
+            // aliased forms: the SAME object on both sides of a by-reference operation (&v + &v, &v - &v, v.dot(&v))
+            "add" if alias => o.rv = Some(&*v + &*v),
+            "sub" if alias => o.rv = Some(&*v - &*v),
+            "dot" if alias => o.rs = Some(v.dot(&*v)),
             "add" => { let w = arg_v::<T>(op); o.rv = Some(match form.as_str() { "own" => v.clone() + w, "mixed" => v.clone() + &w, _ => &*v + &w }) }
             "sub" => { let w = arg_v::<T>(op); o.rv = Some(match form.as_str() { "own" => v.clone() - w, "mixed" => v.clone() - &w, _ => &*v - &w }) }
             "neg" => o.rv = Some(-(v.clone())),
@@ -229,6 +234,8 @@ pub fn run<T: Elem>(case: &Value, out: &mut Out) {
         let pre_re = jvec(&v, Part::Re); let pre_im = jvec(&v, Part::Im);
         let mut e = op.clone();
         e["ty"] = json!(T::NAME); e["cid"] = json!(cid); e["k"] = json!(k);
+        // an aliased call has no second operand of its own: the operand the specification is given is the logged pre-state
+        if op.get("alias").and_then(|a| a.as_bool()).unwrap_or(false) { e["v"] = pre_re.clone(); if T::CX { e["vi"] = pre_im.clone(); } }
         // float-only norms of the current (integer-valued) f64 vector: error in units, measured here
         if name == "norm_2" || name == "norm_p" {
             let Some(w) = down::<T, f64>(&v) else { continue };
@@ -346,12 +353,14 @@ fn rand_op(rng: &mut StdRng, t: &mut Track, ty: &str) -> Value {
             34..=35 => json!({"op": "get", "i": ix(rng, n, bad)}),
             36 => maybe_adopt(json!({"op": "clone"}), rng.gen_bool(0.3)),
             // x = x + y, x = -x, x = x * s, x = Vector::zeros(n) ...: the returned vector becomes the value under test
+            37..=38 if rng.gen_bool(0.25) => { let mut o = json!({"op": if pick == 37 { "add" } else { "sub" }, "alias": true});
+                         if pick == 38 && rng.gen_bool(0.3) { o["adopt"] = json!(true); } else if pick == 37 && 2 * t.b <= BOUND && rng.gen_bool(0.3) { t.b *= 2; o["adopt"] = json!(true); } o }
             37..=38 => { let m = if bad { n + 1 } else { n }; let mut o = with_v(json!({"op": if pick == 37 { "add" } else { "sub" }}), rng, cx, m, -9, 9); o["form"] = json!(form3(rng));
                          if m == n && t.b + 9 <= BOUND && rng.gen_bool(0.3) { t.b += 9; o["adopt"] = json!(true); } o }
             39 => maybe_adopt(json!({"op": "neg"}), rng.gen_bool(0.3)),
             40..=41 => { let x = rng.gen_range(-3..=3); let mut o = with_x(json!({"op": "mul_scalar"}), rng, cx, x); if cx { o["xi"] = json!(rng.gen_range(-3..=3)); } o["form"] = json!(if f64ty && rng.gen_bool(0.5) { "left" } else { "own" });
                          let g = ((x as i64).abs() + if cx { geti(&o, "xi").abs() } else { 0 }).max(1); if t.b * g <= BOUND && rng.gen_bool(0.3) { t.b *= g; o["adopt"] = json!(true); } o }
-            42..=43 => { let m = if bad { n + 1 } else { n }; with_v(json!({"op": "dot"}), rng, cx, m, -9, 9) }
+            42..=43 => { if t.b <= 1000 && rng.gen_bool(0.3) { json!({"op": "dot", "alias": true}) } else { let m = if bad { n + 1 } else { n }; with_v(json!({"op": "dot"}), rng, cx, m, -9, 9) } }
             44 => json!({"op": "sum"}),
             45..=47 => { let (a, b) = if bad { if rng.gen_bool(0.5) { (ix(rng, n, false) + 1, 0) } else { (0, n as i64) } } else { if n == 0 { continue; } let a = rng.gen_range(0..n); (a as i64, rng.gen_range(a..n) as i64) };
                          json!({"op": "sum_slice", "a": a, "b": b}) }
@@ -512,6 +521,21 @@ pub fn gen(tier: &str, seed: u64, out: &mut Out) {
             push(out, json!({"ty": "f64", "init": [], "ops": [op]}));
         }
     } }
+    // (k) dot and the aliased by-reference forms (&v + &v, &v - &v, v.dot(&v)) for EVERY length 0..64 on EVERY element type
+    //     (also in quick: block-size boundaries such as 31..33, 63, 64 are then met by each type); all entries non-zero and the
+    //     second operand sign-matched, so that every product is positive and a dropped or repeated index always changes the sum
+    for n in 0..=MAXLEN { for ty in TYS { for _ in 0..(if quick { 1 } else { 3 }) {
+        let cx = ty == "cx";
+        let nz = |rng: &mut StdRng| -> i64 { rng.gen_range(1..=9) * if rng.gen_bool(0.5) { 1 } else { -1 } };
+        let x: Vec<i64> = (0..n).map(|_| nz(&mut rng)).collect(); let xi: Vec<i64> = (0..n).map(|_| nz(&mut rng)).collect();
+        let w: Vec<i64> = x.iter().map(|a| a.signum() * rng.gen_range(1..=9)).collect(); let wi: Vec<i64> = vec![0; n];
+        let mut ops = vec![json!({"op": "dot", "alias": true}), json!({"op": "dot", "v": w, "vi": wi}), with_v(json!({"op": "dot"}), &mut rng, cx, n, -9, 9),
+                           json!({"op": "add", "alias": true}), json!({"op": "sub", "alias": true}), json!({"op": "add", "alias": true, "adopt": true}),
+                           json!({"op": "dot", "alias": true}), json!({"op": "sub", "alias": true, "adopt": true}), json!({"op": "dot", "alias": true}), json!({"op": "norm_1"})];
+        if !cx { ops.insert(3, json!({"op": "norm_1"})); }
+        let mut c = json!({"ty": ty, "init": x, "ops": ops}); if cx { c["initi"] = json!(xi); }
+        push(out, c);
+    } } }
 }
 
 /// the observers run on a vector that must be all zeros
